@@ -74,6 +74,7 @@ func GenDocSpec(t *simkit.Tape) DocSpec {
 	}
 	cfg := model.DrawXMLConfig(t)
 	cfg.Encoding = ""
+	cfg.Entities = false
 	if t.Bool(1, 3) {
 		cfg.LangBias = true
 	}
